@@ -61,6 +61,7 @@ from mc import core
 
 PROPERTY = 'C12'
 GUARD = ['numqi.channel', 'numqi.utils']  # argument-immutability oracle (mc.seams.ImmutabilityGuard)
+GUARD_LAYOUT = ['numqi.channel', 'numqi.utils']  # memory-layout metamorphic oracle (same wrapper)
 LEVEL = 'model_checking'
 RULE = ('case = (d_in, d_out, n_K, field[, backend]); inside a case the whole channel alphabet (Stinespring isometries from identity / '
         'cyclic shift / Fourier|Hartley / generic unitaries, a rank-deficient "mixed" Kraus set, rand_kraus_op atoms, rand_choi_op roots of '
